@@ -75,7 +75,8 @@ def kw_inv(d):
 
 def exn_name(e):
     n = type(e).__name__
-    return n if n in ("ProtocolError", "TransportLost", "TypeError", "AttributeError", "Exception", "KeyError") else "Other:" + n
+    return n if n in ("ProtocolError", "TransportLost", "TypeError", "AttributeError", "Exception", "KeyError",
+                      "SerializationError", "PayloadExceededError") else "Other:" + n
 
 
 class UserRaise(Exception):
@@ -144,6 +145,7 @@ class Transport:
         self.closed = False      # close() called
         self.lost = False
         self.inline = None       # one-shot: router reply delivered re-entrantly from inside send() (loopback link)
+        self.fail_next = None    # one-shot: send() of the next request message raises this exception
         self.transport_details = types.TransportDetails()
         self.is_closed = txaio.create_future()
         from autobahn.wamp.serializer import JsonSerializer
@@ -151,6 +153,10 @@ class Transport:
 
     def send(self, msg):
         m = canon_msg(msg)
+        if self.fail_next is not None and m[0] in ("publish", "subscribe", "unsubscribe", "call", "register", "unregister"):
+            e, self.fail_next = self.fail_next, None
+            self.log.append(["sendfailed", m])
+            raise e
         if not self.closed and not self.lost:
             self.log.append(["sent", m])
             if self.inline is not None and m[0] in ("publish", "subscribe", "unsubscribe", "call", "register", "unregister"):
@@ -339,7 +345,9 @@ class Runner:
         name = o[0]
         s = self.s
         if name == "open":
-            if s._transport is None and not self.t.lost and not self._opened:
+            if s._transport is None:
+                if self.t.lost:        # a new connection for the same session object
+                    self.t = Transport(self.log, self.cfg.get("lenient", False))
                 self._opened = True
                 self.guard("raised", s.onOpen, self.t)
         elif name == "lost":
@@ -359,6 +367,18 @@ class Runner:
                             self._loop_exc(ctx)
             else:
                 env.turn()
+        elif name == "failsend":
+            # ["failsend", exc, api_op]: transport.send() raises exc for the request message of this API call
+            # (unserializable payload / payload over the transport limit / transport gone); the session stays up
+            from autobahn.wamp.exception import SerializationError
+            from autobahn.exception import PayloadExceededError
+            self.t.fail_next = {"SerializationError": SerializationError("cannot serialize"),
+                                "PayloadExceededError": PayloadExceededError("too big"),
+                                "TransportLost": TransportLost()}[o[1]]
+            try:
+                self.op(o[2])
+            finally:
+                self.t.fail_next = None
         elif name == "react":
             # ["react", j, api_op]: user code attaches to future j a callback/errback that issues api_op when it fires
             # (the "try again" idiom); api_op: call / publish / subscribe / register / unregister
